@@ -153,6 +153,28 @@ def _norm_cmp(c0, lhs_pred):
     return None
 
 
+def _is_scaled_abs(t, u, v, k: float) -> bool:
+    """t == k·|u − v| in any of the spellings abs(k·(u−v)), k·abs(u−v), abs(u−v)·k, with u−v or v−u"""
+    t = strip_typed(t)
+    inner = _abs_arg(t)
+    if inner is not None:
+        return rat_equal(inner, mul(num(k), sub(u, v))) or rat_equal(inner, mul(num(k), sub(v, u)))
+    for d in (sub(u, v), sub(v, u)):
+        for name in ("abs",):
+            if rat_equal(t, mul(num(k), ("call", name, (d,), ()))):
+                return True
+    # abs() of a term that is itself written differently (e.g. abs(self.a - self.b) stored in a local): compare atoms
+    from ..ratfun import frac
+    n, dn = frac(t)
+    if len(dn) == 1 and () in dn and len(n) == 1:
+        (mon, coef), = n.items()
+        if len(mon) == 1:
+            arg = _abs_arg(mon[0]) if isinstance(mon[0], tuple) else None
+            if arg is not None and abs(coef / dn[()] - k) < 1e-12:
+                return rat_equal(arg, sub(u, v)) or rat_equal(arg, sub(v, u))
+    return False
+
+
 def inside(ctx) -> None:
     prog = ctx.prog
     K = prog.cls(B + "BrentsRootFinder")
@@ -193,12 +215,11 @@ def inside(ctx) -> None:
             if m is not None:
                 op, other = m
                 holds_lt = (op == ">=" and t is False) or (op == "<" and t is True)        # |dx| < other
-                oa = _abs_arg(other)
-                if holds_lt and oa is not None and rat_equal(oa, div(mul(num(3), dab), num(4))):
+                if holds_lt and _is_scaled_abs(other, a, b, 0.75):
                     g34 = True
-                if holds_lt and rat_equal(other, div(("call", "abs", (sub(b, c_),), ()), num(2))):
+                if holds_lt and _is_scaled_abs(other, b, c_, 0.5):
                     gh["bc"] = True
-                if holds_lt and rat_equal(other, div(("call", "abs", (sub(c_, d_),), ()), num(2))):
+                if holds_lt and _is_scaled_abs(other, c_, d_, 0.5):
                     gh["cd"] = True
             m = _norm_cmp(c0, is_prod)
             if m is not None:
